@@ -8,8 +8,12 @@
 //     in-memory directory, every outcome class (specs/LockBalanceTrace.tla).
 //   - misc_test.go: lock balance of pool-backed files, OpenedFilesPool,
 //     IdleInvoker and the bitmap sector allocator.
-//   - conc_test.go: concurrent calls on a real directory tree with a
-//     deadlock watchdog.
+//   - conc_test.go: concurrent calls on a real directory tree; deadlocks
+//     are read off consistent goroutine snapshots.
+//   - gated_test.go: lock-order scenarios on the real directory tree: two
+//     directory locks are kept held through the normalizer the directory
+//     calls under its locks, two multi-lock calls are started, the holders
+//     are released one after the other.
 //
 // The drivers only record what the real code did; TLC judges.
 package locks
